@@ -41,6 +41,9 @@ RDATA = {
     "RRSIG:CNAME": ["CNAME 8 2 300 20300101000000 20200101000000 12345 @ c2ln"],
     "RRSIG:NSEC": ["NSEC 8 2 300 20300101000000 20200101000000 12345 @ c2ln"],
     "RRSIG:NS": ["NS 8 2 300 20300101000000 20200101000000 12345 @ c2ln"],
+    # the older SIG type also carries a covered type (two SIG rdatasets at one owner are told apart by it)
+    "SIG:A": ["A 8 2 300 20300101000000 20200101000000 12345 @ c2ln"],
+    "SIG:MX": ["MX 8 2 300 20300101000000 20200101000000 12345 @ c2ln"],
 }
 TYPES = list(RDATA)
 TTLS = [0, 1, 300, 300, 3600, 2**31 - 1, 2**32 - 1]
